@@ -29,7 +29,10 @@ def judge_object(ctx, case):
     from formulae.categorical import Sum, Treatment
 
     n, ref_i, enc, kind = case["n"], case["ref"], case["encoding"], case["levels_kind"]
-    levels = [f"l{i:02d}" for i in range(n)] if kind == "str" else ([3, 0, 7, 12, 5, 1, 9, 4, 30, 2, 8, 6][:n] if kind == "int" else list(range(n)))
+    if kind == "float":  # levels that need more than six significant digits, and whole-valued ones
+        levels = [2.5, 1000001.0, 1000002.0, 0.1234567, 1.0, 1234567.5, 0.0, -3.25, 1e-07, 20240131.0, 0.5, 7.0][:n]
+    else:
+        levels = [f"l{i:02d}" for i in range(n)] if kind == "str" else ([3, 0, 7, 12, 5, 1, 9, 4, 30, 2, 8, 6][:n] if kind == "int" else list(range(n)))
     ref = None if ref_i is None else levels[ref_i]
     nt = n >= 3 and ref_i not in (None, 0, n - 1)
     ctx.count(core.canon(case), nt, ["object:" + enc, "levels:" + kind], stratum="object")
@@ -41,6 +44,37 @@ def judge_object(ctx, case):
         ctx.fail("object", case, f"{enc}({ref!r}) on {n} levels raised {type(ex).__name__}: {ex}", core.exc_key(ex))
         return
     names = [str(l) for l in levels]
+    if kind == "float":
+        # a label names its level: read back as a number it is that level (the spelling is the library's choice)
+        def reads_as(label, level):
+            try:
+                return float(label) == level
+            except ValueError:
+                return False
+
+        kept_r = [l for i, l in enumerate(levels) if i != ((0 if ref_i is None else ref_i) if enc == "Treatment" else (n - 1 if ref_i is None else ref_i))]
+        if len(red.labels) != len(kept_r) or not all(reads_as(a, b) for a, b in zip(red.labels, kept_r)) or len(set(red.labels)) != len(red.labels):
+            ctx.fail("object", case, f"{enc}({ref!r}) on float levels: reduced labels {red.labels} do not name the levels {kept_r}", "float_labels")
+        names = list(ful.labels) if enc == "Treatment" else [None] * n
+        if enc == "Treatment" and not all(reads_as(a, b) for a, b in zip(ful.labels, levels)):
+            ctx.fail("object", case, f"{enc}({ref!r}) on float levels: full labels {ful.labels} do not name the levels {levels}", "float_labels")
+        if enc == "Treatment":
+            names = [str(x) for x in ful.labels]
+        else:
+            names = [next((lab for lab in list(red.labels) if reads_as(lab, l)), str(l)) for l in levels]
+    # one encoding object used again on other levels behaves like a new one (no state from the first use)
+    try:
+        lv2 = list(levels[1:]) + list(levels[:1])
+        if ref is None or ref in lv2:
+            fresh = Treatment(ref) if enc == "Treatment" else Sum(ref)
+            again = (e.code_without_intercept(list(lv2)), e.code_with_intercept(list(lv2)))
+            first = (fresh.code_without_intercept(list(lv2)), fresh.code_with_intercept(list(lv2)))
+            for a, b, which in zip(again, first, ("reduced", "full")):
+                if list(a.labels) != list(b.labels) or not np.array_equal(np.asarray(a.matrix, dtype=float), np.asarray(b.matrix, dtype=float)):
+                    ctx.fail("object", case, f"{enc}({ref!r}): the same object used a second time, on levels {lv2}, gives another {which} coding "
+                             f"than a new object (labels {list(a.labels)} vs {list(b.labels)})", "reuse")
+    except Exception as ex:  # pylint: disable=broad-except
+        ctx.fail("object", case, f"{enc}({ref!r}) used a second time raised {type(ex).__name__}: {ex}", "reuse:" + core.exc_key(ex))
     rm, fm = np.asarray(red.matrix, dtype=float), np.asarray(ful.matrix, dtype=float)
     what = f"{enc}({ref!r}) on {n} {kind} levels"
     if rm.shape != (n, n - 1):
@@ -307,7 +341,7 @@ def _object_cases():
     for n in range(1, 13):
         for ref in [None] + list(range(n)):
             for enc in ("Treatment", "Sum"):
-                for kind in ("str", "int", "int0"):
+                for kind in ("str", "int", "int0", "float"):
                     yield {"kind": "object", "n": n, "ref": ref, "encoding": enc, "levels_kind": kind}
 
 
